@@ -117,6 +117,11 @@ func c11Corpus(tier string) []c11Prog {
 		return k
 	}
 	flat := func(string) string { return "all" }
+	// differential-only programs: behaviour the reference semantics leaves open (bounds, steps and loop
+	// variables changed by the loop body, side effects in conditions) must still be the same in every configuration
+	for i, src := range c11OpenSemantics {
+		out = append(out, c11Prog{name: fmt.Sprintf("open:%d", i), files: map[string]string{"main.ddp": "Binde \"Duden/Ausgabe\" ein.\n" + src}, mainRel: "main.ddp"})
+	}
 	addFamily("stmt", genStmts(), 40, flat)
 	addFamily("func", genFuncs(), 20, flat)
 	addFamily("own", genC05(), 25, byKind)
@@ -245,3 +250,63 @@ func runC11(tier string) int {
 }
 
 func init() { checks["C11"] = check{runC11, nil} }
+
+var c11OpenSemantics = []string{
+	`Die Zahl n ist 6.
+Für jede Zahl i von 1 bis n, mache:
+	Schreibe die Zahl i.
+	Verringere n um 1.
+Schreibe die Zahl n.
+`,
+	`Die Zahlen Liste l ist eine Liste, die aus 1, 2 besteht.
+Für jede Zahl i von 1 bis die Länge von l, mache:
+	Wenn i kleiner als 4 ist, Speichere l verkettet mit i in l.
+	Schreibe die Zahl i.
+Schreibe die Zahl (die Länge von l).
+`,
+	`Die Zahl s ist 1.
+Für jede Zahl i von 1 bis 20 mit Schrittgröße s, mache:
+	Schreibe die Zahl i.
+	Schreibe den Buchstaben ' '.
+	Erhöhe s um 1.
+`,
+	`Für jede Zahl i von 1 bis 10, mache:
+	Schreibe die Zahl i.
+	Schreibe den Buchstaben ' '.
+	Erhöhe i um 2.
+`,
+	`Die Zahl n ist 3.
+Die Funktion grenze gibt eine Zahl zurück, macht:
+	Schreibe den Buchstaben 'g'.
+	Gib 3 zurück.
+Und kann so benutzt werden:
+	"die Grenze"
+Für jede Zahl i von 1 bis (die Grenze), mache:
+	Schreibe die Zahl i.
+`,
+	`Der Text t ist "ab".
+Für jede Zahl i von 1 bis die Länge von t, mache:
+	Wenn i kleiner als 5 ist, Speichere t verkettet mit 'x' in t.
+	Schreibe die Zahl i.
+Schreibe den Text t.
+`,
+	`Die Kommazahl k ist 2,0.
+Für jede Kommazahl x von 0,0 bis k mit Schrittgröße 0,5, mache:
+	Schreibe die Kommazahl x.
+	Schreibe den Buchstaben ' '.
+	Verringere k um 0,25.
+`,
+	`Die Zahl n ist 4.
+Wiederhole:
+	Schreibe die Zahl n.
+	Verringere n um 1.
+n Mal.
+Schreibe die Zahl n.
+`,
+	`Die Zahlen Liste l ist eine Liste, die aus 1, 2, 3 besteht.
+Für jede Zahl z in l, mache:
+	Schreibe die Zahl z.
+	Speichere l verkettet mit z in l.
+Schreibe die Zahl (die Länge von l).
+`,
+}
